@@ -229,7 +229,7 @@ def ref_sample(c, ref, xi):
             return (rl, ul, pl), "L"
         if xi >= us - aL * ref["xL"]:
             return (rl * ref["dL"], us, ps), "Lstar"
-        cc = 2 / gp + gm / (gp * aL) * (ul - xi)
+        cc = max(2 / gp + gm / (gp * aL) * (ul - xi), 0.0)
         return (rl * cc ** (2 / gm), 2 / gp * (aL + gm / 2 * ul + xi), pl * cc ** (2 * g / gm)), "Lfan"
     if ps > pr:
         S = ur + aR * math.sqrt(gp / (2 * g) * ps / pr + gm / (2 * g))
@@ -240,7 +240,7 @@ def ref_sample(c, ref, xi):
         return (rr, ur, pr), "R"
     if xi <= us + aR * ref["xR"]:
         return (rr * ref["dR"], us, ps), "Rstar"
-    cc = 2 / gp - gm / (gp * aR) * (ur - xi)
+    cc = max(2 / gp - gm / (gp * aR) * (ur - xi), 0.0)
     return (rr * cc ** (2 / gm), 2 / gp * (-aR + gm / 2 * ur + xi), pr * cc ** (2 * g / gm)), "Rfan"
 
 
@@ -255,12 +255,12 @@ def ref_sample_vacgen(c, xi):
     if xi <= ul - aL:
         return (rl, ul, pl), "L"
     if xi < SL:
-        cc = 2 / gp + gm / (gp * aL) * (ul - xi)
+        cc = max(2 / gp + gm / (gp * aL) * (ul - xi), 0.0)
         return (rl * cc ** (2 / gm), 2 / gp * (aL + gm / 2 * ul + xi), pl * cc ** (2 * g / gm)), "Lfan"
     if xi <= SR:
         return (0.0, 0.0, 0.0), "vacuum"
     if xi < ur + aR:
-        cc = 2 / gp - gm / (gp * aR) * (ur - xi)
+        cc = max(2 / gp - gm / (gp * aR) * (ur - xi), 0.0)
         return (rr * cc ** (2 / gm), 2 / gp * (-aR + gm / 2 * ur + xi), pr * cc ** (2 * g / gm)), "Rfan"
     return (rr, ur, pr), "R"
 
@@ -316,6 +316,8 @@ def oracle_state(c, ref, samples):
     if cond < 1e-3:
         for (xi, flag, r, u, p) in samples:
             if ref_sample(c, ref, xi)[1] in ("Lstar", "Rstar") and not near_jump(xi):
+                if abs(p - ps) > 0.05 * ps:
+                    break          # not the star state at all: reported by the comparison with the exact solution below
                 if abs(p - ps) > (REL_P + 100 * cond) * ps:
                     return ("star pressure %r differs from the reference solution %r by %.3g relative (allowed %.3g): the pressure equation is not satisfied to the stated accuracy"
                             % (p, ps, abs(p - ps) / ps, REL_P + 100 * cond))
